@@ -98,6 +98,10 @@ def cost(d):
 
 # ----------------------------------------------------------------------------- construction
 
+class ForeignWires(Exception):
+    """a block of the freshly built system reads or drives a wire that belongs to ANOTHER HWSystem"""
+
+
 def _ctx(hw, ins, mons):
     """ins: [(name, wire, alphabet)]; mons: [(tag, monitor, {input name: wire}, {output name: wire})]"""
     c = types.SimpleNamespace()
@@ -112,6 +116,18 @@ def _ctx(hw, ins, mons):
     # (the n-input Or ladder leaves one dangling, unread wire behind)
     und = core.undriven_inputs(hw)
     fr = {id(w) for w in c.free}
+    def top_of(o):
+        while o.parent is not None:
+            o = o.parent
+        return o
+    foreign = [w for w in core.all_wires(hw) + list(und) if top_of(w.parent) is not hw]
+    for leaf in hw.allLeaves():
+        for p_ in leaf.inPorts + leaf.outPorts:
+            if p_.wire is not None and top_of(p_.wire.parent) is not hw:
+                foreign.append(p_.wire)
+    if foreign:
+        # hard evidence that the design just built depends on other systems of the process
+        raise ForeignWires(sorted({w.getFullPath() for w in foreign})[:6])
     if not fr <= {id(w) for w in und} or not {id(w) for w in und if w.sinks} <= fr:
         raise core.HarnessError('free wires of the design differ from the poked set: %r' %
                                 [w.getFullPath() for w in core.undriven_inputs(hw)])
@@ -232,9 +248,22 @@ def cycle(c, x, notes=None):
 
 def run_shard(d):
     try:
+        return _run_shard(d)
+    except ForeignWires as e:
+        core.reset_prepared()
+        return {'configs': 1, 'vacuous_ok': True, 'distinct_outcomes': 0, 'states': 0, 'transitions': 0,
+                'samples': [{'config': d}],
+                'violations': [{'sig': 'C16:%s:depends_on_another_system' % d['adapter'], 'shard': d, 'trace': [],
+                                'detail': {'problem': 'a freshly built adapter is connected to wires of another HWSystem of the same process '
+                                                      '(the schedule of one adapter would change what another one does)',
+                                           'foreign_wires': e.args[0]}}]}
+
+
+def _run_shard(d):
+    try:
         with core.quiet():
             build(d)
-    except core.HarnessError:
+    except (core.HarnessError, ForeignWires):
         raise
     except Exception as e:
         core.reset_prepared()
